@@ -31,7 +31,7 @@ CONSTANTS
     Fut,                  \* an expected revision from the future
     ExpSet,               \* expected revisions clients may name
     ConflictCarriesValue, \* engine parameter (memkv, badger: TRUE; tikv: FALSE)
-    FaultKinds,           \* SUBSET {"err","unka","unkn"}
+    FaultKinds,           \* SUBSET {"err","unka","unkn","rerr"}
     FaultBudget,          \* max injected faults per behaviour
     Watchers,             \* watcher processes (strings)
     WatchStarts,          \* start revisions watchers may name
@@ -219,7 +219,7 @@ Apply(k, newidx, newver) ==
 \*   "err"  not applied, certain error            (fault)
 \*   "unka" applied, outcome reported unknown      (fault)
 \*   "unkn" not applied, outcome reported unknown  (fault)
-Answers == IF faults < FaultBudget THEN {"ok"} \cup FaultKinds ELSE {"ok"}
+Answers == IF faults < FaultBudget THEN {"ok"} \cup (FaultKinds \ {"rerr"}) ELSE {"ok"}   \* ("rerr" is a fault of a read, see DeleteGet)
 IsFault(a) == a # "ok"
 Applied(a) == a \in {"ok", "unka"}
 ResOf(a) == CASE a = "ok" -> "ok" [] a = "err" -> "err" [] OTHER -> "unk"
@@ -352,22 +352,27 @@ UpdateCas(w) ==
     /\ UNCHANGED <<floor, dealt, committed, slot, wops, wi, seqvars, chan, cache, rvars, xvars, acked, maxRet, emitted, kinit, rdvars, cvars>>
 
 \* delete: read the newest version                                          gate: kv.iter
+\* (fault kind "rerr": the engine's iterator fails -- a timeout, a region error; the request ends with that error, but the
+\*  revision it takes next is still reported to the sequencer)
 DeleteGet(w) ==
     /\ wpc[w] = "idle" /\ wi[w] <= OpsPer /\ Op(w).type = "delete" /\ CanStart
-    /\ LET k == Op(w).key  l == LatestK(k)  l0 == Begin(w, WLocInit) IN
-       wloc' = [wloc EXCEPT ![w] =
-                  IF IsLive(l) THEN [l0 EXCEPT !.mod = l.rev, !.oldval = l.val]
-                               ELSE [l0 EXCEPT !.res = "notfound"]]
+    /\ \E a \in {"ok"} \cup (IF faults < FaultBudget THEN FaultKinds \cap {"rerr"} ELSE {}) :
+        /\ LET k == Op(w).key  l == LatestK(k)  l0 == Begin(w, WLocInit) IN
+           wloc' = [wloc EXCEPT ![w] =
+                      IF a = "rerr" THEN [l0 EXCEPT !.res = "err"]
+                      ELSE IF IsLive(l) THEN [l0 EXCEPT !.mod = l.rev, !.oldval = l.val]
+                      ELSE [l0 EXCEPT !.res = "notfound"]]
+        /\ faults' = IF a = "rerr" THEN faults + 1 ELSE faults
+        /\ HF(w, "DeleteGet", "kv.iter", IF a = "rerr" THEN "rerr" ELSE "", 0)
     /\ wpc' = [wpc EXCEPT ![w] = "d_deal"]
-    /\ H(w, "DeleteGet", "kv.iter")
-    /\ UNCHANGED <<store, floor, dealt, committed, slot, wops, wi, seqvars, chan, cache, rvars, faults, xvars, acked, maxRet, emitted, kinit, rdvars, cvars>>
+    /\ UNCHANGED <<store, floor, dealt, committed, slot, wops, wi, seqvars, chan, cache, rvars, xvars, acked, maxRet, emitted, kinit, rdvars, cvars>>
 
 \* delete: allocate, local checks                                           gate: deal
 DeleteDeal(w) ==
     /\ wpc[w] = "d_deal"
     /\ RingRoom /\ dealt' = dealt + 1
     /\ LET r == dealt + 1  e == Op(w).exp  m == wloc[w].mod IN
-       IF wloc[w].res = "notfound"
+       IF wloc[w].res \in {"notfound", "err"}
        THEN /\ wloc' = [wloc EXCEPT ![w].rev = r] /\ wpc' = [wpc EXCEPT ![w] = "notify"]
        ELSE IF r < e
        THEN /\ wloc' = [wloc EXCEPT ![w].rev = r, ![w].res = "drift"] /\ wpc' = [wpc EXCEPT ![w] = "notify"]
